@@ -68,6 +68,54 @@ func runC04(r *Run) {
 		}
 	})
 
+	r.rule("R2b", "the parsed forms are rebuilt from the same spelling of the path as at registration: the matcher from the normalised path, the parameter names from the path as written (E5)", func() {
+		isNormaliser := func(v ssa.Value) bool {
+			c, ok := v.(*ssa.Call)
+			if !ok {
+				return false
+			}
+			n := calleeName(&c.Call)
+			return strings.HasPrefix(n, "github.com/gofiber/utils/v2.ToLower") // case folding is what separates the two spellings
+		}
+		// spelling of the argument of the parseRoute call a stored value comes from
+		spelling := func(f *ssa.Function, field string) (string, string) {
+			for _, fr := range fieldRefs(f) {
+				if !fr.Write || fr.Name != field || fr.Val == nil {
+					continue
+				}
+				// the value itself must not be copied from another, already parsed form
+				if field == "Route.Params" {
+					if d := dependsOn(fr.Val, func(v ssa.Value) bool { return loadOfField(v, "Route.routeParser") }); d != nil {
+						return "copied from Route.routeParser", r.pos(fr.Instr)
+					}
+				}
+				pc := dependsOn(fr.Val, func(v ssa.Value) bool {
+					c, ok := v.(*ssa.Call)
+					return ok && calleeName(&c.Call) == fiberMod+".parseRoute"
+				})
+				if pc == nil {
+					return "not from parseRoute", r.pos(fr.Instr)
+				}
+				arg := pc.(*ssa.Call).Call.Args[0]
+				norm := false
+				withinFunction(f, func() { norm = dependsOn(arg, isNormaliser) != nil }) // normalised in this function or a helper it calls
+				if norm {
+					return "normalised", r.pos(fr.Instr)
+				}
+				return "as written", r.pos(fr.Instr)
+			}
+			return "missing", r.fpos(f)
+		}
+		reg, pre := r.Fn("", "(*App).register"), r.Fn("", "(*App).addPrefixToRoute")
+		for _, field := range []string{"Route.routeParser", "Route.Params"} {
+			a, _ := spelling(reg, field)
+			b, pos := spelling(pre, field)
+			want := map[string]string{"Route.routeParser": "normalised", "Route.Params": "as written"}[field]
+			r.check(a == want && b == want, "addPrefixToRoute≡register:"+field+":spelling", pos, field+" is parsed from the path "+want+" in both",
+				fmt.Sprintf("%s is parsed from the path %s at registration and %s at mount time (expected: %s): mounted routes keep upper-case constants in their matcher (they no longer match the lower-cased request path and are filed under the wrong bucket) or report lower-cased parameter names", field, a, b, want))
+		}
+	})
+
 	r.rule("R3", "mount-time normalisation ≡ registration-time normalisation (shared with C03-R1)", func() {
 		reg, pre, _, _ := normForms(r)
 		ok, d := sameForm(reg["pattern"], pre["pattern"])
